@@ -74,6 +74,38 @@ def signed_fold_idiom(e, var):
     return None
 
 
+def rule_format_enum(repo: Repo, chk: Check, R: str):
+    u = repo.mod("utils")
+    # ------------------------------------------------------------ R08.d
+    fe = u.func("format_enum")
+    chk.saw("utils", "format_enum")
+    ecfg, erd = fn_ctx(fe)
+    wfe = f"{u.path}:{fe.lineno} in format_enum"
+    ep = fe.args.args[0].arg
+    okv, okn = False, True
+    n_ret = 0
+    for n in ecfg.nodes:
+        if n.kind != "return" or n.id not in ecfg.reachable() or n.ast.value is None:
+            continue
+        n_ret += 1
+        v = n.ast.value
+        verbose = None
+        for tst, p in guard_atoms(ecfg, n.id):
+            if isinstance(tst, ast.Compare) and norm(tst.left).endswith("_output_mode") and norm(tst.comparators[0]) == "OutputMode.VERBOSE" and isinstance(tst.ops[0], ast.Eq):
+                verbose = p
+        txt = norm(v)
+        if verbose is True:
+            if not (txt == f"{ep}.name" or txt.endswith(f"+ {ep}.name")):
+                okn = False
+        elif verbose is False:
+            okv = txt in (f"{ep}.value", f"int({ep})", f"int({ep}.value)")
+        else:
+            okn = False
+    chk.judge(R, "utils:format_enum:verbose spelling is the member's name", okn and n_ret >= 2, "a verbose return is not <enum>.name / Class.<enum>.name of the argument", None, wfe)
+    chk.judge(R, "utils:format_enum:compact spelling is the member's value", okv, "the non-verbose return is not <enum>.value of the same argument", None, wfe)
+
+
+
 def run(repo: Repo, chk: Check):
     chk.rule("R08.a", "calc_hash is CRC-32 of the UTF-8 bytes of the name folded to signed 32 bit by a recognised idiom with the right constants", floor=2)
     chk.rule("R08.b", "compute_string packs the characters big-endian: val = val << 8 | ord(c), in forward order, starting from 0", floor=2)
@@ -82,6 +114,7 @@ def run(repo: Repo, chk: Check):
     chk.rule("R08.d", "format_enum returns .name (verbose) or .value (otherwise) of the one object it was given", floor=2)
     chk.rule("R08.e", "the output mode is read only by the spelling functions", floor=3)
     chk.rule("R08.f", "within each enumeration no two names share a number", floor=27)
+    chk.rule("R08.h", "CRC-32 is computed in calc_hash only: every other place that needs a hash calls calc_hash (no second, differently signed hash)", floor=1)
     chk.rule("R08.g", "format_int prints decimal or '$'+uppercase hex of the same value, hex only for values proven non-negative", floor=2)
     u = repo.mod("utils")
     t = repo.mod("types")
@@ -241,33 +274,7 @@ def run(repo: Repo, chk: Check):
         chk.judge("R08.c", f"types:{fname}:passes its output_mode on", len(c.args) >= 3 and isinstance(c.args[2], ast.Name) and c.args[2].id in [a.arg for a in fn.args.args],
                   "the mode argument is not the function's own output_mode parameter", None, wf)
 
-    # ------------------------------------------------------------ R08.d
-    fe = u.func("format_enum")
-    chk.saw("utils", "format_enum")
-    ecfg, erd = fn_ctx(fe)
-    wfe = f"{u.path}:{fe.lineno} in format_enum"
-    ep = fe.args.args[0].arg
-    okv, okn = False, True
-    n_ret = 0
-    for n in ecfg.nodes:
-        if n.kind != "return" or n.id not in ecfg.reachable() or n.ast.value is None:
-            continue
-        n_ret += 1
-        v = n.ast.value
-        verbose = None
-        for tst, p in guard_atoms(ecfg, n.id):
-            if isinstance(tst, ast.Compare) and norm(tst.left).endswith("_output_mode") and norm(tst.comparators[0]) == "OutputMode.VERBOSE" and isinstance(tst.ops[0], ast.Eq):
-                verbose = p
-        txt = norm(v)
-        if verbose is True:
-            if not (txt == f"{ep}.name" or txt.endswith(f"+ {ep}.name")):
-                okn = False
-        elif verbose is False:
-            okv = txt in (f"{ep}.value", f"int({ep})", f"int({ep}.value)")
-        else:
-            okn = False
-    chk.judge("R08.d", "utils:format_enum:verbose spelling is the member's name", okn and n_ret >= 2, "a verbose return is not <enum>.name / Class.<enum>.name of the argument", None, wfe)
-    chk.judge("R08.d", "utils:format_enum:compact spelling is the member's value", okv, "the non-verbose return is not <enum>.value of the same argument", None, wfe)
+    chk.guarded(rule_format_enum, repo, chk, "R08.d")
 
     # ------------------------------------------------------------ R08.e / R08.f
     rule_mode_readers(repo, chk, "R08.e")
@@ -279,6 +286,23 @@ def run(repo: Repo, chk: Check):
         dups = {v: ns for v, ns in byval.items() if len(ns) > 1}
         chk.judge("R08.f", f"types_generated:{en}", not dups and len(mem) > 0, f"enum {en}: members sharing a number {dups}: the number printed in compact mode "
                   f"does not identify the name printed in verbose mode", {"members": len(mem)}, f"{gpath} class {en}")
+
+    # ------------------------------------------------------------ R08.h
+    n_crc = 0
+    for mn in ("utils", "types", "compile_pass", "generate_code", "compiler", "register_assignment", "symbols", "intrinsics"):
+        if not repo.has_mod(mn):
+            continue
+        mm = repo.mod(mn)
+        for c in ast.walk(mm.tree):
+            if isinstance(c, ast.Call) and norm(c.func).split(".")[-1] in ("crc32", "adler32"):
+                f = enclosing_def(c)
+                q = f.qual if f is not None else "<module>"
+                n_crc += 1
+                chk.judge("R08.h", f"{mn}:{q}:computes {norm(c.func)}", (mn, q) == ("utils", "calc_hash"),
+                          f"{mn}.{q} computes {norm(c.func)} itself instead of calling calc_hash: its result is not folded to the signed 32-bit value "
+                          f"(or not from the UTF-8 bytes), so the same HASH(\"...\") gets two different numbers", None, f"{mm.path}:{c.lineno} in {q}")
+    if n_crc < 1:
+        raise AnalysisError("R08.h: no CRC computation found at all")
 
     # ------------------------------------------------------------ R08.g
     fi = u.func("format_int")
